@@ -92,7 +92,7 @@ class Renames:
         digests.pop('*defaults', None)
         # (the model's own rename aliases make old keys answer too: look at the real table)
         orphans = {k: d for k, d in digests.items() if not dict.__contains__(model.funcs, k)}
-        for old, newk in getattr(model, 'renamed', {}).items():
+        for old, newk in list(getattr(model, 'renamed', {}).items()) + list(getattr(model, 'moved', {}).items()):
             self.map[newk] = old
             # closures of a renamed function keep their reasons too
             for f in model.funcs.values():
